@@ -103,7 +103,7 @@ def rule_r7(e, tab):
     expand the typedef name textually to its target, taken from the class headers."""
     n = 0
     for name in sorted(tab):
-        rx = re.compile(r'(?<![\w:])' + name + r'\s*::')
+        rx = re.compile(r'(?<![\w:])(?:[A-Za-z_]\w*\s*::\s*)?' + name + r'\s*::(?=\s*(?:const_)?(?:reverse_)?iterator|\s*value_type|\s*size_type)')
         if not rx.search(e.text):
             continue
         if len(tab[name]) != 1:
